@@ -28,6 +28,19 @@ func randB58(r *rng, n int) []byte {
 }
 
 func genC13(e *emitter, r *rng, thorough bool) {
+	// a valid string with one white-space (or NUL) character in front of it or behind it: trimming is not part of the format
+	for i := 0; i < 4; i++ {
+		p := r.bytes(1 + r.intn(30))
+		plain, checked := base58.Encode(p), base58.CheckEncode(p, byte(r.intn(256)))
+		for _, w := range []string{" ", "\t", "\n", "\v", "\f", "\r", "\r\n", "\u0085", "\u00a0", "\u2028", "\u3000", "\x00"} {
+			for _, v := range []string{w + plain, plain + w} {
+				e.emit("dec.whitespace-wrapped", "b58.dec "+hx([]byte(v)))
+			}
+			for _, v := range []string{w + checked, checked + w} {
+				e.emit("cdec.whitespace-wrapped", "b58.cdec "+hx([]byte(v)))
+			}
+		}
+	}
 	// exhaustive short byte strings
 	e.emit("enc.exh0", "b58.enc -")
 	for a := 0; a < 256; a++ {
@@ -390,6 +403,17 @@ func genC06(e *emitter, r *rng, thorough bool) {
 			e.emit("lax.boundary", "der.lax "+hx(enc))
 		}
 	}
+	// inputs of 254..600 bytes whose length byte is near 255 (or wraps): length arithmetic done in a byte
+	for _, total := range []int{254, 255, 256, 257, 258, 300, 600} {
+		for _, lb := range []byte{0xfe, 0xff, 0xfd, 0x00, 0x06} {
+			raw := append([]byte{0x30, lb, 2, 1, 1, 2, 1, 1}, make([]byte, total-8)...)
+			e.emit("parse.long-lengthbyte", "der.parse "+hx(raw))
+			e.emit("lax.long-lengthbyte", "der.lax "+hx(raw))
+			raw2 := append([]byte{0x30, lb, 2, 1, 1, 2, byte(total - 8 - 0), 1}, bytes.Repeat([]byte{1}, total-8)...)
+			e.emit("parse.long-lengthbyte", "der.parse "+hx(raw2))
+			e.emit("lax.long-lengthbyte", "der.lax "+hx(raw2))
+		}
+	}
 	// single-field perturbations of valid encodings
 	nBase := 6
 	if thorough {
@@ -463,6 +487,10 @@ func genC06(e *emitter, r *rng, thorough bool) {
 			z := append([]byte{}, rb...)
 			z[0] = 0
 			m(derOf(z, sb))
+		}
+		for _, t := range []int{60, 66, 70, 100, 200, 300} { // long tails: bytes after the announced length are ignored, however many
+			m(append(append([]byte{}, valid...), r.bytes(t)...))
+			m(append(append([]byte{}, valid...), make([]byte, t)...))
 		}
 		for t := 1; t <= 3; t++ {
 			m(append(append([]byte{}, valid...), r.bytes(t)...))
